@@ -129,6 +129,9 @@ def gen_field(d, schema, desc, parent, fname, depth, used_keys, opts):
                     d.tag("builder.inline_fragment")
         if not node["sub"] and not node["on"]:
             return None
+        if len(node["sub"]) >= 2 and d.bool(0.3):
+            node["fields_split"] = d.int(1, len(node["sub"]) - 1)
+            d.tag("builder.fields_called_twice")
         if depth >= 1:
             d.tag("builder.depth>=2")
     return node
@@ -222,7 +225,13 @@ def realise(pkg, mods, parent_cls, node):
             raise LookupError(f"{parent_cls.__name__}.{node['name']} is not callable but the intent has arguments")
         obj = attr
     if node["sub"]:
-        obj = obj.fields(*[realise(pkg, mods, type(obj), s) for s in node["sub"]])
+        subs = [realise(pkg, mods, type(obj), s) for s in node["sub"]]
+        k = node.get("fields_split")
+        if k and 0 < k < len(subs):
+            obj = obj.fields(*subs[:k])  # the selection is built up by several .fields() calls on one builder
+            obj = obj.fields(*subs[k:])
+        else:
+            obj = obj.fields(*subs)
     for tname, subs in node["on"].items():
         tcls = [v for k, v in vars(mods["custom_fields"]).items() if isinstance(v, type) and k in (tname + "Fields", tname + "Interface")]
         if len(tcls) != 1:
